@@ -170,6 +170,9 @@ def _tc_histories(sp, tcm, check_pus_crc, c, app, want, tc):
         fresh2.calc_crc()
         eq(devs, f"hist.{tag}.calc_crc", bytes(fresh2.crc16), want[-2:])
         eq(devs, f"hist.{tag}.pack", bytes(build_tc(tcm, c, app).pack()), want)
+    # positional construction in the documented parameter order (service, subservice, apid, app_data, seq_count, source_id, ack_flags)
+    eq(devs, "hist.positional.bytes", bytes(tcm.PusTc(c["service"], c["subservice"], c["apid"], app, c["seq"], c["source_id"], c["ack"]).pack()), want)
+    eq(devs, "hist.positional.sec_header", bytes(tcm.PusTcDataFieldHeader(c["service"], c["subservice"], c["source_id"], c["ack"]).pack()), want[6:11])
     # documented defaults (APID 0, count 0, source id 0, all four ack flags, no application data): two such telecommands are independent
     d1 = tcm.PusTc(service=c["service"], subservice=c["subservice"])
     d2 = tcm.PusTc(service=c["service"], subservice=c["subservice"])
